@@ -1598,4 +1598,336 @@ theorem objective_relabel (σ : Nat → Nat) (eqs : List PairEq) (sys : System) 
     intro s _
     simp only [Function.comp, hy]
 
+
+
+/-! ### the valid pairs of the relabelled input, as a list -/
+
+theorem allPairs_nodup (n : Nat) : (allPairs n).Nodup := by
+  unfold allPairs
+  rw [List.nodup_flatMap]
+  constructor
+  · intro i _
+    refine List.Nodup.map ?_ (List.nodup_range.filter _)
+    intro a b h; exact (Prod.mk.inj h).2
+  · refine List.nodup_range.imp ?_
+    intro a b hab
+    simp only [Function.onFun, List.disjoint_left, List.mem_map, List.mem_filter]
+    rintro e ⟨j, _, rfl⟩ ⟨j', _, h⟩
+    exact hab (Prod.mk.inj h).1.symm
+
+theorem pairs_nodup (m n : Nat) (g : Option (List (Nat × Nat))) (ms : Nat) (col : Nat → List Rat) :
+    (pairs m n g ms col).Nodup := (allPairs_nodup n).filter _
+
+/-- a pair written with the smaller index first -/
+def orientPair (e : Nat × Nat) : Nat × Nat := if e.1 < e.2 then e else (e.2, e.1)
+
+def mapPair (σ : Nat → Nat) (e : Nat × Nat) : Nat × Nat := (σ e.1, σ e.2)
+
+theorem range_surj {σ : Nat → Nat} {n : Nat} (hp : ((List.range n).map σ).Perm (List.range n)) {a : Nat}
+    (ha : a < n) : ∃ i, i < n ∧ σ i = a := by
+  have : a ∈ (List.range n).map σ := hp.symm.subset (List.mem_range.mpr ha)
+  obtain ⟨i, hi, rfl⟩ := List.mem_map.mp this
+  exact ⟨i, List.mem_range.mp hi, rfl⟩
+
+theorem pairs_relabel_perm {σ : Nat → Nat} (hσ : Function.Injective σ) {n : Nat}
+    (hp : ((List.range n).map σ).Perm (List.range n)) (m : Nat) (g : Option (List (Nat × Nat))) (ms : Nat)
+    {col col' : Nat → List Rat} (hcol : ∀ s, col' (σ s) = col s) :
+    (pairs m n (mapGraph σ g) ms col').Perm ((pairs m n g ms col).map (fun e => orientPair (mapPair σ e))) := by
+  have hinj : ∀ e ∈ pairs m n g ms col, ∀ e' ∈ pairs m n g ms col,
+      orientPair (mapPair σ e) = orientPair (mapPair σ e') → e = e' := by
+    intro e he e' he' h
+    have h1 := ((mem_pairs _ _ _ _ _ _).mp he).1
+    have h2 := ((mem_pairs _ _ _ _ _ _).mp he').1
+    unfold orientPair mapPair at h
+    simp only at h
+    split at h <;> split at h
+    · have := Prod.mk.inj h; exact Prod.ext (hσ this.1) (hσ this.2)
+    · have := Prod.mk.inj h
+      have a1 := hσ this.1; have a2 := hσ this.2; omega
+    · have := Prod.mk.inj h
+      have a1 := hσ this.1; have a2 := hσ this.2; omega
+    · have := Prod.mk.inj h; exact Prod.ext (hσ this.2) (hσ this.1)
+  rw [List.perm_ext_iff_of_nodup (pairs_nodup _ _ _ _ _) (List.Nodup.map_on hinj (pairs_nodup _ _ _ _ _))]
+  intro x
+  constructor
+  · intro hx
+    obtain ⟨hlt, hn, hok⟩ := (mem_pairs _ _ _ _ _ _).mp hx
+    obtain ⟨i, hi, hia⟩ := range_surj hp (show x.1 < n by omega)
+    obtain ⟨j, hj, hjb⟩ := range_surj hp hn
+    have hne : i ≠ j := fun e => by rw [e, hjb] at hia; omega
+    have hok' : pairOk m g ms (numValid m n col) col i j = true := by
+      rw [← pairOk_relabel hσ m g ms _ hcol, ← numValid_relabel hp m hcol, hia, hjb]; exact hok
+    apply List.mem_map.mpr
+    rcases Nat.lt_or_gt_of_ne hne with h | h
+    · refine ⟨(i, j), (mem_pairs _ _ _ _ _ _).mpr ⟨h, hj, hok'⟩, ?_⟩
+      unfold orientPair mapPair
+      simp only [hia, hjb, hlt, if_true]
+    · refine ⟨(j, i), (mem_pairs _ _ _ _ _ _).mpr ⟨h, hi, by rw [pairOk_comm]; exact hok'⟩, ?_⟩
+      unfold orientPair mapPair
+      simp only [hia, hjb]
+      rw [if_neg (by omega)]
+  · intro hx
+    obtain ⟨e, he, rfl⟩ := List.mem_map.mp hx
+    rcases pairs_relabel hσ hp m g ms hcol e.1 e.2 he with h | h
+    · have hlt := ((mem_pairs _ _ _ _ _ _).mp h).1
+      unfold orientPair mapPair
+      simp only at hlt ⊢
+      rw [if_pos hlt]; exact h
+    · have hlt := ((mem_pairs _ _ _ _ _ _).mp h).1
+      unfold orientPair mapPair
+      simp only at hlt ⊢
+      rw [if_neg (by omega)]; exact h
+
+
+
+theorem maxRatio_comm (a b : Nat) : maxRatio a b = maxRatio b a := by
+  unfold maxRatio
+  rcases Nat.lt_trichotomy a b with h | h | h
+  · rw [if_pos h, if_neg (by omega)]
+  · subst h; rfl
+  · rw [if_neg (by omega), if_pos h]
+
+theorem stabWeight_comm (a b : Nat) : stabWeight a b = stabWeight b a := by
+  unfold stabWeight
+  rw [maxRatio_comm a b]
+  simp only [or_comm]
+
+/-- an equation written with the smaller sample index first -/
+def orientEq (q : PairEq) : PairEq := if q.i < q.j then q else flipEq q
+
+/-- the equation of the relabelled input for the (re-oriented) image of a valid pair is the relabelled,
+    re-oriented equation — provided the median ratio of a pair whose orientation flips is antisymmetric -/
+theorem pairEq_relabel {σ : Nat → Nat} (hσ : Function.Injective σ) (stab : Bool) (c : Rat) (l : List Prec)
+    {col col' : Nat → List Rat} (hcol : ∀ s, col' (σ s) = col s) (e : Nat × Nat)
+    (hanti : σ e.2 < σ e.1 → ratio col e.2 e.1 = (ratio col e.1 e.2)⁻¹) (hne : σ e.1 ≠ σ e.2) :
+    pairEq stab c (l.map (relabel σ)) col' (orientPair (mapPair σ e)) =
+      orientEq (relabelEq σ (pairEq stab c l col e)) := by
+  unfold orientPair mapPair orientEq
+  simp only
+  by_cases h : σ e.1 < σ e.2
+  · rw [if_pos h]
+    have h' : (relabelEq σ (pairEq stab c l col e)).i < (relabelEq σ (pairEq stab c l col e)).j := h
+    rw [if_pos h']
+    unfold pairEq relabelEq
+    simp only [pepCount_relabel hσ, sumInt_relabel hσ, ratio_relabel hcol]
+  · rw [if_neg h]
+    have h' : ¬ (relabelEq σ (pairEq stab c l col e)).i < (relabelEq σ (pairEq stab c l col e)).j := h
+    rw [if_neg h']
+    have hlt : σ e.2 < σ e.1 := by omega
+    unfold pairEq relabelEq flipEq
+    simp only [pepCount_relabel hσ, sumInt_relabel hσ, ratio_relabel hcol, hanti hlt,
+      stabWeight_comm (pepCount c l e.2) (pepCount c l e.1)]
+    congr 1
+    cases stab
+    · simp
+    · simp only [if_true]
+      split
+      · simp
+      · rw [inv_div]
+
+
+
+/-- the options of the relabelled run: the FastLFQ graph is transported -/
+def relabelOpts (σ : Nat → Nat) (o : Opts) : Opts := { o with graph := mapGraph σ o.graph }
+
+theorem stageA_eqs_def (o : Opts) (l : List Prec) : (stageA o l).eqs =
+    (pairs o.minRatios o.n o.graph o.minSamples (column (selected o.cutoff l))).map
+      (pairEq o.stab o.cutoff l (column (selected o.cutoff l))) := rfl
+
+/-- the equations of the relabelled input are, up to order, the relabelled equations written with the
+    smaller index first — if the median ratio of every pair whose orientation flips is antisymmetric -/
+theorem eqs_relabel_perm {σ : Nat → Nat} (hσ : Function.Injective σ) (o : Opts)
+    (hp : ((List.range o.n).map σ).Perm (List.range o.n)) (l : List Prec)
+    (hanti : ∀ e ∈ pairs o.minRatios o.n o.graph o.minSamples (column (selected o.cutoff l)),
+      σ e.2 < σ e.1 → ratio (column (selected o.cutoff l)) e.2 e.1 = (ratio (column (selected o.cutoff l)) e.1 e.2)⁻¹) :
+    (stageA (relabelOpts σ o) (l.map (relabel σ))).eqs.Perm
+      (((stageA o l).eqs.map (relabelEq σ)).map (fun q => if !(decide (q.i < q.j)) then flipEq q else q)) := by
+  have hcol : ∀ s, column (selected o.cutoff (l.map (relabel σ))) (σ s) = column (selected o.cutoff l) s :=
+    fun s => column_relabel hσ o.cutoff l s
+  rw [stageA_eqs_def, stageA_eqs_def]
+  simp only [relabelOpts, List.map_map]
+  refine ((pairs_relabel_perm hσ hp o.minRatios o.graph o.minSamples hcol).map _).trans ?_
+  rw [List.map_map]
+  apply List.Perm.of_eq
+  apply List.map_congr_left
+  intro e he
+  have hlt := ((mem_pairs _ _ _ _ _ _).mp he).1
+  have hne : σ e.1 ≠ σ e.2 := fun h => by have := hσ h; omega
+  simp only [Function.comp]
+  rw [pairEq_relabel hσ o.stab o.cutoff l hcol e (hanti e he) hne]
+  unfold orientEq
+  by_cases h : (relabelEq σ (pairEq o.stab o.cutoff l (column (selected o.cutoff l)) e)).i <
+      (relabelEq σ (pairEq o.stab o.cutoff l (column (selected o.cutoff l)) e)).j
+  · simp [h]
+  · simp [h]
+
+theorem objective_sys_perm (eqs : List PairEq) {sys sys' : System} (h1 : sys.seen.Perm sys'.seen)
+    (h2 : sys.zeroCols.Perm sys'.zeroCols) (y : Nat → ℝ) : objective eqs sys y = objective eqs sys' y := by
+  unfold objective
+  rw [(h1.map y).sum_eq, (h2.map _).sum_eq]
+
+theorem incident_relabel {σ : Nat → Nat} (hσ : Function.Injective σ) {n : Nat}
+    (hp : ((List.range n).map σ).Perm (List.range n)) (m : Nat) (g : Option (List (Nat × Nat))) (ms : Nat)
+    {col col' : Nat → List Rat} (hcol : ∀ s, col' (σ s) = col s) (s : Nat) :
+    (∃ e' ∈ pairs m n (mapGraph σ g) ms col', e'.1 = σ s ∨ e'.2 = σ s) ↔
+      (∃ e ∈ pairs m n g ms col, e.1 = s ∨ e.2 = s) := by
+  have hperm := pairs_relabel_perm hσ hp m g ms hcol
+  constructor
+  · rintro ⟨e', he', h⟩
+    obtain ⟨e, he, rfl⟩ := List.mem_map.mp (hperm.subset he')
+    refine ⟨e, he, ?_⟩
+    unfold orientPair mapPair at h
+    simp only at h
+    split at h
+    · rcases h with h | h
+      · exact Or.inl (hσ h)
+      · exact Or.inr (hσ h)
+    · rcases h with h | h
+      · exact Or.inr (hσ h)
+      · exact Or.inl (hσ h)
+  · rintro ⟨e, he, h⟩
+    refine ⟨orientPair (mapPair σ e), hperm.symm.subset (List.mem_map_of_mem he), ?_⟩
+    unfold orientPair mapPair
+    simp only
+    split
+    · rcases h with h | h
+      · exact Or.inl (by rw [h])
+      · exact Or.inr (by rw [h])
+    · rcases h with h | h
+      · exact Or.inr (by rw [h])
+      · exact Or.inl (by rw [h])
+
+theorem lt_of_map_lt {σ : Nat → Nat} (hσ : Function.Injective σ) {n : Nat}
+    (hp : ((List.range n).map σ).Perm (List.range n)) {s : Nat} (h : σ s < n) : s < n := by
+  obtain ⟨i, hi, hia⟩ := range_surj hp h
+  have := hσ hia
+  omega
+
+theorem seen_relabel_perm {σ : Nat → Nat} (hσ : Function.Injective σ) {n : Nat}
+    (hp : ((List.range n).map σ).Perm (List.range n)) (m : Nat) (g : Option (List (Nat × Nat))) (ms : Nat)
+    {col col' : Nat → List Rat} (hcol : ∀ s, col' (σ s) = col s) :
+    ((buildSystem n (pairs m n g ms col)).seen.map σ).Perm (buildSystem n (pairs m n (mapGraph σ g) ms col')).seen := by
+  rw [List.perm_ext_iff_of_nodup (List.Nodup.map hσ (seen_nodup _ _)) (seen_nodup _ _)]
+  intro x
+  rw [List.mem_map, mem_seen]
+  constructor
+  · rintro ⟨s, hs, rfl⟩
+    rw [mem_seen] at hs
+    exact ⟨map_range_mem hp hs.1, (incident_relabel hσ hp m g ms hcol s).mpr hs.2⟩
+  · rintro ⟨hx, hinc⟩
+    obtain ⟨s, hs, rfl⟩ := range_surj hp hx
+    exact ⟨s, (mem_seen _ _ _).mpr ⟨hs, (incident_relabel hσ hp m g ms hcol s).mp hinc⟩, rfl⟩
+
+theorem zeroCols_nodup (n : Nat) (ps : List (Nat × Nat)) : (buildSystem n ps).zeroCols.Nodup :=
+  (List.nodup_range).filter _
+
+theorem mem_zeroCols' (n : Nat) (ps : List (Nat × Nat)) (s : Nat) :
+    s ∈ (buildSystem n ps).zeroCols ↔ s < n ∧ ¬ ∃ e ∈ ps, e.1 = s ∨ e.2 = s := by
+  rw [mem_zeroCols]
+  constructor
+  · rintro ⟨h1, h2⟩
+    refine ⟨h1, ?_⟩
+    rintro ⟨e, he, h⟩
+    rcases h with h | h
+    · exact (h2 e he).1 h
+    · exact (h2 e he).2 h
+  · rintro ⟨h1, h2⟩
+    exact ⟨h1, fun e he => ⟨fun h => h2 ⟨e, he, Or.inl h⟩, fun h => h2 ⟨e, he, Or.inr h⟩⟩⟩
+
+theorem zeroCols_relabel_perm {σ : Nat → Nat} (hσ : Function.Injective σ) {n : Nat}
+    (hp : ((List.range n).map σ).Perm (List.range n)) (m : Nat) (g : Option (List (Nat × Nat))) (ms : Nat)
+    {col col' : Nat → List Rat} (hcol : ∀ s, col' (σ s) = col s) :
+    ((buildSystem n (pairs m n g ms col)).zeroCols.map σ).Perm
+      (buildSystem n (pairs m n (mapGraph σ g) ms col')).zeroCols := by
+  rw [List.perm_ext_iff_of_nodup (List.Nodup.map hσ (zeroCols_nodup _ _)) (zeroCols_nodup _ _)]
+  intro x
+  rw [List.mem_map, mem_zeroCols']
+  constructor
+  · rintro ⟨s, hs, rfl⟩
+    rw [mem_zeroCols'] at hs
+    exact ⟨map_range_mem hp hs.1, fun h => hs.2 ((incident_relabel hσ hp m g ms hcol s).mp h)⟩
+  · rintro ⟨hx, hinc⟩
+    obtain ⟨s, hs, rfl⟩ := range_surj hp hx
+    exact ⟨s, (mem_zeroCols' _ _ _).mpr ⟨hs, fun h => hinc ((incident_relabel hσ hp m g ms hcol s).mpr h)⟩, rfl⟩
+
+/-- the least-squares objective of the relabelled input at the relabelled vector equals the original
+    objective (median ratios of flipped pairs antisymmetric) -/
+theorem objective_stageA_relabel {σ : Nat → Nat} (hσ : Function.Injective σ) (o : Opts)
+    (hp : ((List.range o.n).map σ).Perm (List.range o.n)) (l : List Prec)
+    (hanti : ∀ e ∈ pairs o.minRatios o.n o.graph o.minSamples (column (selected o.cutoff l)),
+      σ e.2 < σ e.1 → ratio (column (selected o.cutoff l)) e.2 e.1 = (ratio (column (selected o.cutoff l)) e.1 e.2)⁻¹)
+    (w w' : Nat → ℝ) (hw : ∀ s, w' (σ s) = w s) :
+    objective (stageA (relabelOpts σ o) (l.map (relabel σ))).eqs
+        (stageA (relabelOpts σ o) (l.map (relabel σ))).system w' =
+      objective (stageA o l).eqs (stageA o l).system w := by
+  have hcol : ∀ s, column (selected o.cutoff (l.map (relabel σ))) (σ s) = column (selected o.cutoff l) s :=
+    fun s => column_relabel hσ o.cutoff l s
+  rw [objective_perm (eqs_relabel_perm hσ o hp l hanti), objective_flip]
+  have hsys : objective ((stageA o l).eqs.map (relabelEq σ))
+      (stageA (relabelOpts σ o) (l.map (relabel σ))).system w' =
+      objective ((stageA o l).eqs.map (relabelEq σ)) (relabelSys σ (stageA o l).system) w' := by
+    symm
+    apply objective_sys_perm
+    · exact seen_relabel_perm hσ hp o.minRatios o.graph o.minSamples hcol
+    · exact zeroCols_relabel_perm hσ hp o.minRatios o.graph o.minSamples hcol
+  rw [hsys, objective_relabel σ _ _ w w' hw]
+
+
+
+/-- a least-squares solution of the original system, relabelled, is a least-squares solution of the
+    system of the relabelled input -/
+theorem isLeastSquares_relabel {σ : Nat → Nat} (hσ : Function.Injective σ) (o : Opts)
+    (hp : ((List.range o.n).map σ).Perm (List.range o.n)) (l : List Prec)
+    (hanti : ∀ e ∈ pairs o.minRatios o.n o.graph o.minSamples (column (selected o.cutoff l)),
+      σ e.2 < σ e.1 → ratio (column (selected o.cutoff l)) e.2 e.1 = (ratio (column (selected o.cutoff l)) e.1 e.2)⁻¹)
+    (y y' : Nat → ℝ) (hy : ∀ s, y' (σ s) = y s)
+    (hls : IsLeastSquares (stageA o l).eqs (stageA o l).system y) :
+    IsLeastSquares (stageA (relabelOpts σ o) (l.map (relabel σ))).eqs
+      (stageA (relabelOpts σ o) (l.map (relabel σ))).system y' := by
+  intro z'
+  rw [objective_stageA_relabel hσ o hp l hanti y y' hy,
+    objective_stageA_relabel hσ o hp l hanti (fun s => z' (σ s)) z' (fun _ => rfl)]
+  exact hls _
+
+section FinalRelabel
+variable {α : Type} [Field α] [LinearOrder α] [IsStrictOrderedRing α] [inst : DecidableLT α]
+
+theorem vsum_relabel {σ : Nat → Nat} {n : Nat} (hp : ((List.range n).map σ).Perm (List.range n))
+    (f f' : Nat → α) (h : ∀ s, f' (σ s) = f s) : vsum n f' = vsum n f := by
+  unfold vsum
+  rw [← (hp.map f').sum_eq, List.map_map]
+  congr 1
+  apply List.map_congr_left
+  intro s _
+  exact h s
+
+theorem zeroed_relabel {σ : Nat → Nat} (hσ : Function.Injective σ) {zero zero' : List Nat}
+    (hz : (zero.map σ).Perm zero') (v v' : Nat → α) (hv : ∀ s, v' (σ s) = v s) (s : Nat) :
+    zeroed zero' v' (σ s) = zeroed zero v s := by
+  unfold zeroed
+  have : zero'.contains (σ s) = zero.contains s := by
+    rw [Bool.eq_iff_iff]
+    simp only [List.contains_iff_mem]
+    rw [← hz.mem_iff, List.mem_map]
+    constructor
+    · rintro ⟨t, ht, h⟩; rwa [← hσ h]
+    · intro h; exact ⟨s, h, rfl⟩
+  rw [this, hv]
+
+/-- zeroing + `_scaleEqualSum` permute with the samples -/
+theorem lfq_relabel {σ : Nat → Nat} (hσ : Function.Injective σ) {n : Nat}
+    (hp : ((List.range n).map σ).Perm (List.range n)) {zero zero' : List Nat} (hz : (zero.map σ).Perm zero')
+    (tot : α) (v v' : Nat → α) (hv : ∀ s, v' (σ s) = v s) (s : Nat) :
+    lfq n zero' tot v' (σ s) = lfq n zero tot v s := by
+  have hzs := zeroed_relabel (α := α) hσ hz v v' hv
+  have hsum : vsum n (zeroed zero' v') = vsum n (zeroed zero v) := vsum_relabel hp _ _ hzs
+  unfold lfq scaleEqualSum
+  rw [hsum]
+  split
+  · show tot / vsum n (zeroed zero v) * zeroed zero' v' (σ s) = tot / vsum n (zeroed zero v) * zeroed zero v s
+    rw [hzs]
+  · exact hzs s
+
+end FinalRelabel
+
 end PgFdr.C11
